@@ -239,7 +239,7 @@ def main():
         done = sum(1 for i in range(len(ks)) if i in kr)
         bad = [(c[:300], mres[:300], kr[i][:300]) for i, (c, mres) in enumerate(ks) if i in kr and kr[i] != mres][:3]
         cov['kernel_crosscheck'] = {'sampled': len(ks), 'evaluated_in_kernel': done, 'agree_with_extracted_executor': agree,
-                                    'how': 'coqc: Eval vm_compute in (ch_dec/ch_avps/ch_type/ch_enc/ch_enca ...) over Model/Show.v'}
+                                    'how': 'coqc: Eval vm_compute in (ch_dec/ch_avps/ch_type/ch_enc/ch_enca/ch_hide/ch_reveal/ch_md5 ...) over Model/Show.v'}
         if 'error' in kr:
             cov['kernel_crosscheck']['coqc_error'] = kr['error'][-600:]
         if bad:
